@@ -85,13 +85,15 @@ static void check_any_call(InstId inst_id, uint32_t allowed0, uint32_t allowed1,
       if (m.has_base_reg() && !m.is_reg_home() && m.base_id() >= 32) { must_refuse = true; why |= 8; }
     }
     if (o.is_label() && o.id() >= holder()->_label_entries._size) { must_refuse = true; why |= 16; }
+    // LOCK is #UD unless the destination is a memory operand (SDM Vol.2 LOCK); asmjit's operand order puts the destination first
+    if (i == 0 && Support::test(opts, InstOptions::kX86_Lock) && !o.is_mem()) { must_refuse = true; why |= 32; }
     // an operand after a none operand is never looked at by some encoders: only the leading run counts
     if (o.is_none()) break;
   }
   Error e = a->x86::Assembler::_emit(inst_id, o0, o1, o2, ext);
   size_t n = emitted();
   verif_observe(uint32_t(e)); verif_observe(n); verif_observe(why);
-  if (must_refuse) V_ASSERT(e != Error::kOk, "invalid register id, segment id or label id is refused");
+  if (must_refuse) V_ASSERT(e != Error::kOk, "invalid register id, segment id, label id or LOCK without a memory destination is refused");
   if (e != Error::kOk) {
     V_ASSERT(n == 0, "failed call appends nothing (cursor unchanged)");
     V_ASSERT(text()->_buffer._size == 0, "failed call leaves the section size unchanged");
